@@ -2,7 +2,7 @@
 From Coq Require Import List NArith ZArith Bool.
 From Coq.Strings Require Import Byte.
 From Coq Require Import QArith.
-From Model Require Import Bytes Sx Utf8 Frame Parser FrameParser Response Conn Persist Handshake Proxy Transport Conc.
+From Model Require Import Bytes Sx Utf8 Frame Parser FrameParser Response Conn Persist Handshake Proxy Transport Conc Digest Url.
 Import ListNotations.
 Open Scope N_scope.
 
@@ -60,7 +60,9 @@ Definition un_optZ (s : sx) : option Z := match s with L [x] => Some (un_Z x) | 
 Definition un_cfg (s : sx) : cfg :=
   let l := un_L s in
   {| c_poll := un_Z (nth_sx l 0); c_ping_rate := un_Z (nth_sx l 1); c_ping_timeout := un_optZ (nth_sx l 2);
-     c_auto_pong := un_bool (nth_sx l 3); c_close_timeout := un_optZ (nth_sx l 4); c_accept := un_B (nth_sx l 5) |}.
+     c_auto_pong := un_bool (nth_sx l 3); c_close_timeout := un_optZ (nth_sx l 4);
+     (* field 5: the 16 random bytes of this connection; key and expected accept value are computed here *)
+     c_accept := accept_of (make_key (un_B (nth_sx l 5))) |}.
 Definition un_step (s : sx) : step :=
   let l := un_L s in
   let dt := un_Z (nth_sx l 1) in
@@ -131,16 +133,20 @@ Definition cmd_persist (args : list sx) : sx :=
   L [L (map sx_pitem items); sx_bool running].
 
 (* ---------- requests ---------- *)
-(* (30 resource host port key agent ((h v)...) (proto...) compress version) *)
+(* (30 resource host port rand16 agent ((h v)...) (proto...) compress version): the key is derived from the 16 random bytes *)
 Definition cmd_request (args : list sx) : sx :=
   B (build_request {| q_resource := un_B (nth_sx args 0); q_host := un_B (nth_sx args 1); q_port := un_N (nth_sx args 2);
-                      q_key := un_B (nth_sx args 3); q_agent := un_B (nth_sx args 4);
+                      q_key := make_key (un_B (nth_sx args 3)); q_agent := un_B (nth_sx args 4);
                       q_custom := map (fun p => (un_B (nth_sx (un_L p) 0), un_B (nth_sx (un_L p) 1))) (un_L (nth_sx args 5));
                       q_protocols := map un_B (un_L (nth_sx args 6)); q_compress := un_bool (nth_sx args 7);
                       q_version := un_N (nth_sx args 8) |}).
-(* (31 host port (cred)?) *)
+(* (31 host port () | (user) | (user password)): the Basic credentials token is computed here *)
 Definition cmd_proxy_request (args : list sx) : sx :=
-  B (proxy_request (un_B (nth_sx args 0)) (un_N (nth_sx args 1)) (un_optB (nth_sx args 2))).
+  let cred := match un_L (nth_sx args 2) with
+              | [B u] => Some (proxy_credentials u None)
+              | [B u; B p] => Some (proxy_credentials u (Some p))
+              | _ => None end in
+  B (proxy_request (un_B (nth_sx args 0)) (un_N (nth_sx args 1)) cred).
 
 (* (32 (recv steps as in scenarios)) -> 0 tunnel | 1 fail | 2 blocked *)
 Definition cmd_proxy_negotiate (args : list sx) : sx :=
@@ -152,6 +158,49 @@ Definition cmd_proxy_run (args : list sx) : sx :=
   let script := map (fun s => match un_step s with StRead _ r => r | _ => RExc end) (un_L (nth_sx args 0)) in
   let cf := {| c_poll := 5120; c_ping_rate := 0; c_ping_timeout := None; c_auto_pong := true; c_close_timeout := None; c_accept := [] |} in
   L (map sx_titem (rev (k_tr (run_via_proxy cf (fun _ => []) (init [] [] [] []) script [])))).
+
+(* (34 rand16) -> (Sec-WebSocket-Key, expected Sec-WebSocket-Accept) *)
+Definition cmd_handshake_values (args : list sx) : sx :=
+  let key := make_key (un_B (nth_sx args 0)) in L [B key; B (accept_of key)].
+(* (35 user (password)?) -> the credentials token of Proxy-Authorization: Basic *)
+Definition cmd_proxy_credentials (args : list sx) : sx :=
+  B (proxy_credentials (un_B (nth_sx args 0)) (un_optB (nth_sx args 1))).
+(* (36 bytes) -> SHA-1 digest;  (37 bytes) -> (base64 text, its decoding (bytes) or ()) *)
+Definition cmd_sha1 (args : list sx) : sx := B (sha1 (un_B (nth_sx args 0))).
+Definition cmd_b64 (args : list sx) : sx :=
+  let e := b64_encode (un_B (nth_sx args 0)) in
+  L [B e; match b64_decode e with Some d => L [B d] | None => L [] end;
+     match b64_decode (un_B (nth_sx args 0)) with Some d => L [B d] | None => L [] end].
+
+(* (38 url) -> () when urlparse / the port property refuse the URL (or it is outside the modelled domain), else
+   (scheme (user)? (password)? host (port)? path query resource ws_port secure proxy_port proxy_tls) *)
+Definition sx_optB (o : option bytes) : sx := match o with Some b => L [B b] | None => L [] end.
+Definition cmd_url (args : list sx) : sx :=
+  match parse_url (un_B (nth_sx args 0)) with
+  | None => L []
+  | Some u => L [B (u_scheme u); sx_optB (u_user u); sx_optB (u_password u); B (u_host u);
+                 match u_port u with Some n => L [A n] | None => L [] end; B (u_path u); B (u_query u);
+                 B (ws_resource u); A (ws_port u); sx_bool (ws_secure u); A (proxy_port u); sx_bool (proxy_tls u)]
+  end.
+(* (39 url rand16 agent ((h v)...) (proto...) compress version) -> (request) or () : the upgrade request of a WebSocket
+   constructed from this URL *)
+Definition cmd_request_url (args : list sx) : sx :=
+  match parse_url (un_B (nth_sx args 0)) with
+  | None => L []
+  | Some u =>
+    L [B (build_request (req_of_url u (make_key (un_B (nth_sx args 1))) (un_B (nth_sx args 2))
+                           (map (fun p => (un_B (nth_sx (un_L p) 0), un_B (nth_sx (un_L p) 1))) (un_L (nth_sx args 3)))
+                           (map un_B (un_L (nth_sx args 4))) (un_bool (nth_sx args 5)) (un_N (nth_sx args 6))))]
+  end.
+(* (41 proxy_url target_host target_port) -> () or (proxy_host proxy_port tls CONNECT-request) *)
+Definition cmd_proxy_url (args : list sx) : sx :=
+  match parse_url (un_B (nth_sx args 0)) with
+  | None => L []
+  | Some u =>
+    let cred := match proxy_user u with Some (us, pw) => Some (proxy_credentials us pw) | None => None end in
+    L [B (u_host u); A (proxy_port u); sx_bool (proxy_tls u);
+       B (proxy_request (un_B (nth_sx args 1)) (un_N (nth_sx args 2)) cred)]
+  end.
 
 (* (40 tls (records...)) -> (chunk sizes ...) *)
 Definition cmd_drain (args : list sx) : sx :=
@@ -192,6 +241,13 @@ Definition run_sx (req : sx) : sx :=
   | L (A 31 :: args) => cmd_proxy_request args
   | L (A 32 :: args) => cmd_proxy_negotiate args
   | L (A 33 :: args) => cmd_proxy_run args
+  | L (A 34 :: args) => cmd_handshake_values args
+  | L (A 35 :: args) => cmd_proxy_credentials args
+  | L (A 36 :: args) => cmd_sha1 args
+  | L (A 37 :: args) => cmd_b64 args
+  | L (A 38 :: args) => cmd_url args
+  | L (A 39 :: args) => cmd_request_url args
+  | L (A 41 :: args) => cmd_proxy_url args
   | L (A 40 :: args) => cmd_drain args
   | L (A 50 :: args) => cmd_conc args
   | _ => L [A 998]
